@@ -539,6 +539,11 @@ _NARY_TABLE: dict[type[NaryOp], object] = {
 ###########################################################
 # Eval namespace
 
+def _captured_name(name: str) -> str:
+    """Namespace slot holding the captured value behind free variable `name`."""
+    return f'__fpy_captured_{name}'
+
+
 def make_namespace() -> dict[str, object]:
     # add special symbols to namespace
     namespace = {
@@ -557,6 +562,7 @@ def make_namespace() -> dict[str, object]:
         '__fpy_eq': _eval_eq,
         '__fpy_attribute': _eval_attribute,
         '__fpy_ordered': _eval_ordered,
+        '__fpy_to_value': to_value,
         REAL_NAME: REAL,
     }
 
@@ -610,6 +616,9 @@ class BytecodeCompiler(Visitor):
         for var in self.func.free_vars:
             name = str(var)
             namespace[name] = to_value(self.env[name])
+            if isinstance(namespace[name], (list, tuple)):
+                # rebuilt on every call by the function's prologue
+                namespace[_captured_name(name)] = namespace[name]
         # add foreign values to the namespace
         namespace.update(self.foreign_vals)
         # return the function object
@@ -1134,6 +1143,23 @@ class BytecodeCompiler(Visitor):
 
         body = self._visit_block(func.body, None)
         attrs = self._location_to_attributes(func.loc)
+
+        # A captured list is rebuilt on entry, as an argument is at the Python
+        # boundary: the compiled function is cached, so a write to the captured
+        # object (or a caller editing a returned one) would be seen by later calls.
+        prologue: list[pyast.stmt] = []
+        for var in func.free_vars:
+            name = str(var)
+            if name in self.env and isinstance(self.env[name], (list, tuple)):
+                fresh = pyast.Call(
+                    func=pyast.Name(id='__fpy_to_value', ctx=pyast.Load(), **attrs),
+                    args=[pyast.Name(id=_captured_name(name), ctx=pyast.Load(), **attrs)],
+                    keywords=[],
+                    **attrs
+                )
+                target = pyast.Name(id=name, ctx=pyast.Store(), **attrs)
+                prologue.append(pyast.Assign(targets=[target], value=fresh, **attrs))
+        body = prologue + body
 
         ctx_arg = pyast.arg(arg=CTX_NAME, annotation=None, type_comment=None, **attrs)
         py_args = pyast.arguments(
